@@ -7,6 +7,7 @@
 #ifndef VERIF_FSLOG_HPP
 #define VERIF_FSLOG_HPP
 
+#include <cerrno>
 #include <cstdarg>
 #include <cstdio>
 #include <cstring>
@@ -43,6 +44,8 @@ struct fs_state
     long kill_at = -1;                    // operation index at which the process is killed
     long kill_bytes = 0;                  // for a write: bytes that reach the file before the kill
     bool offset_mismatch = false;
+    long fail_rename = -1;                // the n-th rename (0-based) fails with ENAMETOOLONG and does nothing
+    long renames_seen = 0;
 };
 
 inline fs_state& fs() { static fs_state s; return s; }
@@ -216,6 +219,7 @@ int rename(char const* a, char const* b)
     auto real = vf::fs_real<int (*)(char const*, char const*)>("rename");
     if (!vf::fs_tracked(a) && !vf::fs_tracked(b)) return real(a, b);
     vf::fs_before(false);
+    if (vf::fs().renames_seen++ == vf::fs().fail_rename) { errno = ENAMETOOLONG; return -1; }   // injected environment fault
     int const rc = real(a, b);
     if (rc == 0)
     {
